@@ -20,9 +20,9 @@ from ..schema import (
 from ..schema.scalars import MAX_INT, MIN_INT, SPECIFIED_SCALAR_TYPES
 
 
-_INT_RE = re.compile(r"^-?(0|[1-9][0-9]*)$")
+_INT_RE = re.compile(r"^-?(0|[1-9][0-9]*)\Z")
 _FLOAT_RE = re.compile(
-    r"^-?(0|[1-9][0-9]*)(\.[0-9]+[eE][+-]?[0-9]+|\.[0-9]+|[eE][+-]?[0-9]+)$"
+    r"^-?(0|[1-9][0-9]*)(\.[0-9]+[eE][+-]?[0-9]+|\.[0-9]+|[eE][+-]?[0-9]+)\Z"
 )
 
 
